@@ -486,7 +486,9 @@ func (t *WeightedMerkleTrie) Commit(collapseLevel int) (storage.Batcher, error) 
 func (t *WeightedMerkleTrie) RollbackTrie(node Node) {
 	if node == nil || node.Weight() == 0 {
 		node = emptyNode
-	} else if bytes.Equal(node.Hash(), t.root.Hash()) {
+	} else if !t.root.Dirty() && bytes.Equal(node.Hash(), t.root.Hash()) {
+		// already there. A root with uncommitted changes is not: it still carries the hash it had
+		// before it was changed
 		return
 	}
 	t.root = node
